@@ -365,6 +365,64 @@ func init() {
 					}
 					fillCase(c, n, full)
 				}})
+			// a fill-in value that brings its own variables is inserted AS IS: the same map must not be
+			// applied to it, even when the map has keys equal to its variable names
+			inner := []struct {
+				mk   func() ast.ItemNode
+				node *ref.Node
+			}{
+				{func() ast.ItemNode { return ast.NewUintNode(2, "inner") }, &ref.Node{Kind: ref.U2, Elems: []ref.Elem{{Var: "inner"}}}},
+				{func() ast.ItemNode { return ast.NewListNode(ast.NewASCIINodeVariable("inner", 0, -1), "deep") }, ref.List(ref.AsciiVar("inner", 0, -1), ref.Var("deep"))},
+				{func() ast.ItemNode { return ast.NewBooleanNode("inner", true) }, &ref.Node{Kind: ref.BOOLEAN, Elems: []ref.Elem{{Var: "inner"}, {T: true}}}},
+			}
+			outer := []*ref.Node{
+				ref.List(ref.Var("v0"), ref.Uints(ref.U1, 1)),
+				ref.List(ref.Uints(ref.U1, 1), ref.List(ref.Var("v0"), &ref.Node{Kind: ref.I1, Elems: []ref.Elem{{Var: "v1"}}})),
+				ref.List(ref.Var("v0"), ref.Var("v1")),
+			}
+			extra := []map[string]interface{}{{}, {"inner": 7}, {"inner": "text"}, {"inner": true, "deep": ast.NewBinaryNode(1)}, {"inner": 7, "v1": 3}}
+			sp = append(sp, h.Space{Name: "value-with-own-variables-is-inserted-as-is", Count: product(len(outer), len(inner), len(extra), 2),
+				Describe: func(i uint64) interface{} {
+					d := unrank(i, len(outer), len(inner), len(extra), 2)
+					return fmt.Sprintf("%s with v0 := %s and extra keys %s (message=%v)", ref.Print(outer[d[0]]), ref.Print(inner[d[1]].node), showMap(extra[d[2]]), d[3] == 1)
+				},
+				Run: func(c *h.Ctx, i uint64) {
+					d := unrank(i, len(outer), len(inner), len(extra), 2)
+					tmpl, in := outer[d[0]], inner[d[1]]
+					m := map[string]interface{}{"v0": in.mk()}
+					asg := map[string]fillValue{"v0": {node: in.node}}
+					for k, v := range extra[d[2]] {
+						m[k] = v
+						if k == "v1" {
+							for _, s := range func() []slot { var s []slot; slotsOf(tmpl, &s); return s }() {
+								if s.name == "v1" && s.kind != ref.VAR {
+									asg["v1"] = fillValue{v: 3, elem: ref.Elem{I: 3}}
+								} else if s.name == "v1" {
+									delete(m, "v1") // a list variable takes an item, keep the case simple
+								}
+							}
+						}
+					}
+					desc := fmt.Sprintf("%s filled with %s", ref.Print(tmpl), showMap(m))
+					want := substitute(tmpl, asg)
+					var got ast.ItemNode
+					var pan string
+					if d[3] == 0 {
+						got, pan = tryFill(Build(tmpl), m)
+					} else {
+						msg := ast.NewDataMessage("", 1, 1, 0, "H->E", Build(tmpl))
+						if p := catch(func() { got = msgItem(msg.FillVariables(m)) }); p != nil {
+							pan = fmt.Sprint(p)
+						}
+					}
+					c.Ops(1)
+					if pan != "" {
+						c.Fail("value-with-variables-refused", desc, pan)
+					} else if dd := matchesRef(got, want); dd != "" {
+						c.Fail("value-with-variables-not-inserted-as-is", desc, dd)
+					}
+					c.Case(0, true, "inserted-as-is")
+				}})
 			// messages: fill x wait bit x session in every order, split fills
 			msgT := []*ref.Node{
 				{Kind: ref.U1, Elems: []ref.Elem{{Var: "v0"}, {U: 2}, {Var: "v1"}}},
